@@ -209,3 +209,54 @@ def plan_c09(tier, seed):
     for n in ("s0", "s5", "s6", "s7_p1", "s7_p2", "s64_p10"):
         hs.append(S("c09_ver_" + n, "version response into capacity/prefill " + n, sym=7))
     return hs
+
+
+# ---------------------------------------------------------------------------------- C07
+@register("C07", "c07", {
+    "functions": ["ctap2::AuthenticatorData::<A,E>::serialize (make_credential and get_assertion instantiations)",
+                  "<make_credential::AttestedCredentialData as SerializeAttestedCredentialData>::serialize",
+                  "AuthenticatorDataFlags constants / from_bits_truncate", "cbor_smol::cbor_serialize_to of make_credential::Extensions / get_assertion::ExtensionsOutput"],
+    "bounds": "rp hash (32 bytes), flag byte (all 256 -> all 16 combinations), counter (2^32), aaguid/id/key contents and extension "
+              "values symbolic; enumerated: aaguid length 0/16/17; credential-id lengths 0,1,32,255,256 and the accept/reject frontier "
+              "for key lengths 77 (543/544/545), 0 (621/622), 300 (321/322); id length symbolic in 0..=8; ids of 65535/65536/70000 "
+              "bytes; every subset of the three MakeCredential extension outputs; hmac-secret output of 32/64 bytes; overflow caused by "
+              "the extension map",
+    "out": "credential-id lengths between the enumerated points (the routine is a chain of length-uniform extend_from_slice calls); "
+           "thirdPartyPayment extension output (feature third-party-payment) is covered by C03/C16 instances only",
+})
+def plan_c07(tier, seed):
+    hs = [S("c07_flag_bits", "flag constants and all 256 flag bytes", sym=1)]
+    small = ["id0", "id1", "id32", "aaguid0", "aaguid17", "id700", "id65535", "id65536", "id70000"]
+    for n in small:
+        hs.append(S("c07_mc_" + n, "MakeCredential authenticator data, attested credential data instance " + n, sym=140))
+    for n, t in (("id255", BOTH), ("id256", (T,)), ("id543", (T,)), ("id544", BOTH), ("id545", BOTH), ("key0_id621", (T,)), ("key0_id622", (T,)),
+                 ("key300_id321", (T,)), ("key300_id322", (T,))):
+        hs.append(S("c07_mc_" + n, "MakeCredential authenticator data at the capacity frontier: " + n, tiers=t, fsa=700, sym=700, timeout=2400))
+    hs.append(S("c07_mc_symbolic_id_len", "credential id of symbolic length 0..=8", sym=70))
+    hs.append(S("c07_header_only_both_flavours", "no attested data, no extensions: 37-byte header (both flavours)", sym=37))
+    hs.append(S("c07_ga_hmac32", "GetAssertion flavour with 32-byte hmac-secret output", sym=70))
+    hs.append(S("c07_ga_hmac64", "GetAssertion flavour with 64-byte hmac-secret output", sym=101))
+    hs.append(S("c07_ga_empty_extensions", "GetAssertion flavour with an empty extension map", sym=37))
+    for m in range(8):
+        hs.append(S("c07_mc_ext_mask%d" % m, "MakeCredential flavour, attested data + extension outputs subset %d (credProtect|hmac-secret|largeBlobKey)" % m, sym=80,
+                    tiers=BOTH if m in (0, 3, 5, 7) else (T,)))
+    hs.append(S("c07_mc_ext_overflow", "extension map pushes the total over 676 bytes", fsa=700, sym=670, timeout=2400, tiers=(T,)))
+    return hs
+
+
+# ---------------------------------------------------------------------------------- C10
+@register("C10", "c10", {
+    "functions": ["ctap2::Authenticator::call_ctap2", "ctap1::Authenticator::call_ctap1", "impl Rpc<ctap2::Error, ctap2::Request, ctap2::Response> for A (call)",
+                  "impl Rpc<ctap1::Error, ctap1::Request, ctap1::Response> for A (call)", "ctap2::Authenticator::large_blobs (default)", "ctap1::Authenticator::version (default)"],
+    "bounds": "all 10 CTAP2 request variants (parameter-bearing ones decoded from a minimal concrete message) and all 3 CTAP1 variants; "
+              "symbolic: entry point (generic Rpc::call vs protocol-specific), handler outcome (success / index into a table of 6 (3 for "
+              "CTAP1) distinct errors), 32-bit marker planted in the success response, vendor code (all 256 -> all 64 valid), CTAP1 "
+              "challenge/app id/key handle bytes",
+    "out": "request payloads other than the minimal templates (dispatch passes a reference: pointer equality with the request's own "
+           "parameters is asserted, so payload contents are irrelevant)",
+})
+def plan_c10(tier, seed):
+    names = ["get_info", "get_next_assertion", "reset_selection", "vendor", "make_credential", "get_assertion", "client_pin",
+             "credential_management", "large_blobs", "ctap1"]
+    return [S("c10_" + n, "dispatch of %s through both entry points against a recording mock with symbolic behaviour" % n, sym=12, timeout=1800)
+            for n in names]
